@@ -2820,7 +2820,7 @@ RCP<const Basic> zeta(const RCP<const Basic> &s, const RCP<const Basic> &a)
             } else {
                 return make_rcp<const Zeta>(s, a);
             }
-            if (a_ < 0)
+            if (a_ <= 0)
                 return add(zeta, harmonic(-a_, s_));
             return sub(zeta, harmonic(a_ - 1, s_));
         }
